@@ -9,6 +9,10 @@
 #include "kit/num.h"
 #include <dsplib.h>
 #include <thread>
+#if defined(__x86_64__) || defined(__i386__)
+#include <xmmintrin.h>
+#define C10_HAVE_MXCSR 1
+#endif
 #include <unistd.h>
 #include <set>
 
@@ -199,7 +203,14 @@ HistResult run_history(const std::vector<int>& h) {
             if (kind == K_USE_Z) { if (st.z.empty()) continue; eff_n = st.z[size_t(n) % st.z.size()].first; }
             const bool is_use = (kind == K_USE_C || kind == K_USE_R || kind == K_USE_IC || kind == K_USE_IR || kind == K_USE_Z);
             std::vector<uint64_t> got;
+#ifdef C10_HAVE_MXCSR
+            const unsigned csr_before = _mm_getcsr() & 0xFFC0u;   // control bits only (rounding mode, exception masks, FTZ, DAZ); the sticky status flags may change
+#endif
             try { got = perform(kind, n, st, n); } catch (const std::exception& e) { R.failed = true; R.sig = "cache:exception"; R.msg = fmt("step %zu %s(%d) threw %s", step, kind_name(kind), n, e.what()); return; }
+#ifdef C10_HAVE_MXCSR
+            // a call must not leave the thread's floating-point control state changed: every later result (of any function) would depend on it
+            if ((_mm_getcsr() & 0xFFC0u) != csr_before) { R.failed = true; R.sig = "history:fp-control-state-changed"; R.msg = fmt("step %zu %s(%d) left MXCSR control bits %04x (before: %04x): flush-to-zero / rounding mode now depend on the call history", step, kind_name(kind), n, _mm_getcsr() & 0xFFC0u, csr_before); return; }
+#endif
             const auto Ac = verif::fft_cache_keys(), Ar = verif::rfft_cache_keys();
             // (1)/(3) result identical to the fresh-thread result
             const auto& ref = fresh_result(eff_kind, eff_n);
@@ -373,6 +384,12 @@ static void lng_check(const Json& c, Out& o) {
         if (kind == K_USE_C || kind == K_USE_R || kind == K_USE_IC || kind == K_USE_IR || kind == K_USE_Z) n = r.range(0, 63);
         if (kind == K_IRFFT || kind == K_PLAN_IR || kind == K_IRFFT_FULL) n = 2 * n;
         if (kind == K_HILBERT) n = std::max(n, 3);
+        if (c.geti("v", 1) >= 4 && r.range(0, 95) == 0) {   // now and then a large power-of-two plan (the sizes with their own code paths)
+            static const int big[4] = {16384, 32768, 65536, 49152};   // (the case code packs lengths below 100000)
+            static const int bk[4] = {K_FFT, K_IFFT, K_RFFT, K_FFT_REAL};
+            kind = bk[r.range(0, 3)];
+            n = big[r.range(0, 3)];
+        }
         h.push_back(code(kind, n));
     }
     HistResult res = run_history(h);
@@ -388,7 +405,7 @@ static void lng_check(const Json& c, Out& o) {
 }
 static void lng_gen(Ctx& ctx) {
     ctx.rc("random", ctx.by_tier(3000, 30000), [&]() {
-        return Json::object().set("v", 3).set("len", pick_log(1, ctx.by_tier(600, 10000))).set("npool", pick(2, 40)).set("seed", (long long)seed64());
+        return Json::object().set("v", 4).set("len", pick_log(1, ctx.by_tier(600, 10000))).set("npool", pick(2, 40)).set("seed", (long long)seed64());
     });
 }
 
